@@ -242,6 +242,7 @@ func rulesC18(w *World, r *Report) {
 		}
 		r.Check(ok, "C18.R4", "ViewRawCommand.execute", w.pos(ve.Pos()), "read -> filter(From, until) -> optional stable sort -> print", "view-raw does not print the time-filtered raw slots (sorted only under -sort)")
 	}
+	ruleFilterVisitsAll(w, r, "C18.R4")
 	if sp := need(w, r, "C18.R4", w.Cmd, "sortPointsListByTime"); sp != nil {
 		_, n := singleCall(sp, func(c *ssa.Call) bool { return isCallToPkgFunc(c, "sort", "Stable") })
 		bad := 0
@@ -396,6 +397,7 @@ func rulesC19(w *World, r *Report) {
 		}
 	}
 	ruleToStdTimeUTC(w, r, "C19.R2")
+	ruleTimestampFromStdTime(w, r, "C19.R2")
 	if pt := need(w, r, "C19.R2", w.Lib, "ParseTimestamp"); pt != nil {
 		fcs := failConditions(w, pt)
 		ok := len(fcs) == 1 && strings.HasPrefix(fcs[0].Core(), "nil != time.Parse(") || len(fcs) == 1 && strings.Contains(fcs[0].Core(), "time.Parse(")
@@ -818,6 +820,7 @@ func rulesC20(w *World, r *Report) {
 		r.Check(vOK, "C20.R4", "randomPoints:values", w.pos(rp.Pos()), "values are Intn(max+1) or the high-sum helper", "a generated value is not rnd.Intn(rndMax+1) or randomValWithHighSum(...): "+vGot)
 		r.Check(tOK, "C20.R4", "randomPoints:times", w.pos(rp.Pos()), "times are offsets from the step-truncated until", "a generated time is not an offset from until.Truncate(step): "+tGot)
 	}
+	ruleTruncateEpoch(w, r, "C20.R4")
 	ruleC05R7(w, r, "C05.R7")
 }
 
